@@ -123,6 +123,37 @@ def rand_expr(rng, depth, causal=False, pool=COEFS, ops=None, maxord=3):
   raise ValueError(op)
 
 
+def deg_est(e):
+  """Rough degree of the unreduced fraction a tree evaluates to (the fractions are never reduced, so
+  nested powers / substitutions grow fast); used to keep generated trees cheap to evaluate."""
+  t = e[0]
+  if t == "lists": return max(len(e[1]), len(e[2]))
+  if t == "num": return max(len(e[1]), 1)
+  if t == "dict": return 6
+  if t == "z": return 1
+  if t in ("neg", "pos"): return deg_est(e[1])
+  if t in SCAL: return deg_est(e[1])
+  if t in RSCAL: return deg_est(e[2])
+  if t in BIN: return deg_est(e[1]) + deg_est(e[2])
+  if t == "pow": return abs(e[2]) * deg_est(e[1])
+  if t == "call":
+    da, dg = deg_est(e[1]), deg_est(e[2])
+    return (da + 1) * (da + 1) * max(dg, 1)
+  raise ValueError(t)
+
+
+DEG_LIMIT = 48
+
+
+def bounded_expr(rng, depth, *args, **kw):
+  """rand_expr, resampled (with the same rng, deterministically) until the degree estimate is small"""
+  for _ in range(50):
+    e = rand_expr(rng, depth, *args, **kw)
+    if deg_est(e) <= DEG_LIMIT:
+      return e
+  return rand_leaf(rng, bool(args and args[0]))
+
+
 def has_op(e):
   return e[0] not in ("dict", "lists", "num", "z")
 
@@ -448,7 +479,7 @@ def gen_tree(tier, rng):
     depth = rng.choice([1, 1, 2, 2, 2, 3, 3, 4])
     causal = rng.random() < 0.45                      # all-causal trees exercise the signal side
     pool = COEFS if depth <= 2 else SIMPLE
-    e = rand_expr(rng, depth, causal, pool, maxord=(3 if depth <= 3 else 2))
+    e = bounded_expr(rng, depth, causal, pool, maxord=(3 if depth <= 3 else 2))
     zero = rand_zero(rng)
     for x in rand_inputs(rng):
       yield {"e": e, "x": x, "zero": zero,
@@ -475,15 +506,15 @@ def gen_sys(tier, rng):
     for kind in KINDS:
       depth = rng.choice([0, 0, 1, 1, 2])
       ops = ["neg"] + ["add", "sub", "mul"] * 3 + ["adds", "muls", "smul", "pow"]
-      a = rand_expr(rng, depth, True, COEFS if depth < 2 else SIMPLE, ops)
-      b = rand_expr(rng, rng.choice([0, 0, 1]), True, COEFS, ops)
+      a = bounded_expr(rng, depth, True, COEFS if depth < 2 else SIMPLE, ops)
+      b = bounded_expr(rng, rng.choice([0, 0, 1]), True, COEFS, ops)
       if kind == "divmul" and rng.random() < 0.3:
         b = ["mul", ["pow", ["z"], -rng.randrange(1, 3)], b]          # a delay in the divisor
       if rng.random() < 0.06:
-        b = rand_expr(rng, 1, False)                                    # not necessarily causal
+        b = bounded_expr(rng, 1, False)                                 # not necessarily causal
       n = rng.choice([0, 1, 2, 2, 3, 4]) if kind == "pow" else rng.choice([0, 1, 2, 3, 5, 8])
-      if kind == "pow" and depth == 2:
-        n = min(n, 2)
+      if kind == "pow":
+        n = min(n, max(1, DEG_LIMIT // max(deg_est(a), 1)))
       cc = fr(rng.choice(COEFS + [Fraction(0)]))
       zero = rand_zero(rng)
       for x in rand_inputs(rng, 0.3):
@@ -547,8 +578,8 @@ def gen_eq(tier, rng):
       yield {"a": lhs, "b": rhs, "must": name not in WEAK, "tags": ["law", name]}
   n = 150 if tier == "quick" else 1500
   for i in range(n):
-    a = rand_expr(rng, rng.choice([0, 1, 2]), rng.random() < 0.5)
-    b = rand_expr(rng, rng.choice([0, 1, 2]), rng.random() < 0.5) if rng.random() < 0.7 else a
+    a = bounded_expr(rng, rng.choice([0, 1, 2]), rng.random() < 0.5)
+    b = bounded_expr(rng, rng.choice([0, 1, 2]), rng.random() < 0.5) if rng.random() < 0.7 else a
     yield {"a": a, "b": b, "must": False, "tags": ["random", "same-expr" if a == b else "pair"]}
 
 
@@ -569,8 +600,8 @@ def gen_flist(tier, rng):
     k = rng.choice([0, 1, 2, 2, 3, 3, 4])
     es = []
     for _ in range(k):
-      e = rand_expr(rng, rng.choice([0, 0, 1]), True, COEFS if k <= 3 else SIMPLE,
-                    ["neg", "add", "sub", "mul", "muls", "pow"])
+      e = bounded_expr(rng, rng.choice([0, 0, 1]), True, COEFS if k <= 3 else SIMPLE,
+                       ["neg", "add", "sub", "mul", "muls", "pow"])
       if rng.random() < 0.04:
         e = rand_leaf(rng, False)
         while e[0] == "lists" and all(c[0] == 0 for c in e[2]):    # every member must be a filter object
